@@ -66,8 +66,9 @@ def make_case(spec, i):
     while len(steps) < n:
         x = r.random()
         if x < 0.14 and depth < 3:
-            if r.random() < 0.45:
-                st = {"enter": "obj", "h": r.randrange(nres)}
+            live = [h.id for h in ms.handles.values() if h.is_root and h.attached]
+            if r.random() < 0.45 and live:
+                st = {"enter": "obj", "h": r.choice(live)}
             else:
                 cap = None
                 if r.random() < 0.6:
@@ -85,6 +86,17 @@ def make_case(spec, i):
         if x < 0.31 and depth > 0:
             steps.append({"setcap": r.choice(small) if forcing else r.choice([10**6, 10**9])})
             continue
+        if x < 0.34 and ms.backend_count > 0:
+            # the program drops an object that was used inside the backend-wide context (no context of its own):
+            # what it buffered stays accounted for until the context flushes it, and is gone afterwards
+            cands = [h for h in ms.handles.values() if h.is_root and h.attached and ms.obj_count.get(h.id, 0) == 0]
+            if cands:
+                H = r.choice(cands)
+                steps.append({"drop": H.id})
+                for hh in ms.handles.values():
+                    if hh.root == H.id:
+                        hh.attached = False
+                continue
         steps.extend(gen.gen_program(g, ms, 1, p_read=0.35, depth=2))
     while depth > 0:
         steps.append({"exit": 1})
